@@ -89,7 +89,7 @@ Section Named.
   Notation sample_line := (om_sample_line legacy guard_fix fix_nhkeys fix_nhsfx fix_tsmix fix_isnan fix_quote fix_tsexp true
                       NUM parse_num parse_float parse_int num_lt num_eqb num_isinf num_integral num_huge
                       num_zero num_one num_inf ts_float is_word is_space_re is_digit_re).
-  Notation enter_family := (om_enter_family legacy guard_fix true NUM parse_float num_lt num_eqb num_zero num_inf).
+  Notation enter_family := (om_enter_family legacy guard_fix fix_nhsfx true NUM parse_float num_lt num_eqb num_zero num_inf).
   Notation group_step := (om_group_step fix_tsmix NUM num_lt num_eqb ts_float).
   Notation read_sample := (om_read_sample legacy guard_fix fix_nhkeys fix_nhsfx fix_quote fix_tsexp true NUM parse_num parse_float
                              parse_int num_eqb num_isinf is_word is_space_re is_digit_re).
@@ -112,9 +112,9 @@ Section Named.
     st' = st /\ out = [].
   Proof.
     unfold om_enter_family. intros H Hc.
-    assert (C : negb (mem_str (os_name s) (st_allowed st)) && negb b = false).
-    { destruct Hc as [->| ->]; [apply andb_false_r|reflexivity]. }
-    rewrite C in H. inversion H; subst. split; reflexivity.
+    destruct (negb (mem_str (os_name s) (st_allowed st)) && negb (b && _)) eqn:C.
+    - destruct Hc as [->|Hm]; [discriminate|]. rewrite Hm in C. discriminate.
+    - inversion H; subst. split; reflexivity.
   Qed.
 
   (* ---- 3. families of type unknown hold samples of their own name only ---- *)
